@@ -57,12 +57,18 @@ SAYER = {name: "say_%d" % i for i, name in enumerate(sorted(SAY))}
 
 
 class World:
-    def __init__(self):
+    def __init__(self, html=False):
         from pedal.core.commands import clear_report, contextualize_report
         from pedal.sandbox import commands as S
         import pedal.assertions  # noqa
         clear_report()
         contextualize_report(student_source())
+        import os as _os
+        if _os.environ.get("VERIF_FORCE_HTML") or html:
+            # (every other chunk of cells) the HTML formatter of the web environments: wording must not change verdicts
+            from pedal.core.report import MAIN_REPORT
+            from pedal.core.formatting import HtmlFormatter
+            MAIN_REPORT.set_formatter(HtmlFormatter(MAIN_REPORT))
         S.run()
         self.S = S
 
@@ -129,7 +135,7 @@ def replay_chunk(cases, extra):
     from engine.core import setup_repo_path
     setup_repo_path()
     from pedal.core.report import MAIN_REPORT as R
-    w = World()
+    w = World(html=bool(cases) and (cases[0][0] // 300) % 2 == 1)
     out = []
     n = 0
     for idx, rec in cases:
